@@ -298,8 +298,8 @@ func (fa *FuncAnalysis) guardsOfBlock(b *ssa.BasicBlock, depth int) []Guard {
 		if s0 == s1 {
 			continue
 		}
-		e0 := edgeDominates(d, s0, b)
-		e1 := edgeDominates(d, s1, b)
+		e0 := edgeDominatesLive(fa, d, s0, b)
+		e1 := edgeDominatesLive(fa, d, s1, b)
 		if e0 == e1 {
 			continue
 		}
@@ -329,8 +329,31 @@ func (fa *FuncAnalysis) guardsOfBlock(b *ssa.BasicBlock, depth int) []Guard {
 
 // edgeDominates: every path from function entry to b uses the CFG edge d->s.
 func edgeDominates(d, s, b *ssa.BasicBlock) bool {
+	return edgeDominatesLive(nil, d, s, b)
+}
+
+// edgeDominatesLive: as edgeDominates, but entries of s through edges that branch on a constant condition the other
+// way (edgeDead) do not count.
+func edgeDominatesLive(fa *FuncAnalysis, d, s, b *ssa.BasicBlock) bool {
 	if !s.Dominates(b) {
 		return false
+	}
+	if fa != nil {
+		for _, p := range s.Preds {
+			if p == d || s.Dominates(p) {
+				continue
+			}
+			dead := false
+			for si, sb := range p.Succs {
+				if sb == s && fa.edgeDead(p, si) {
+					dead = true
+				}
+			}
+			if !dead {
+				return false
+			}
+		}
+		return true
 	}
 	// s dominates b; the edge d->s dominates b iff every predecessor of s other than d is dominated by s
 	// (i.e. is a back edge into s), otherwise s can be entered without taking d->s.
@@ -561,6 +584,9 @@ func (fa *FuncAnalysis) mustReachPruned(from ssa.Instruction, targets []ssa.Inst
 			}
 		}
 		for i, s := range n.b.Succs {
+			if fa.edgeDead(n.b, i) {
+				continue
+			}
 			nn := n.nonnil
 			if g, ok := fa.EdgeFact(n.b, i); ok {
 				if prune != nil && prune(g) {
@@ -618,7 +644,10 @@ func (fa *FuncAnalysis) Reaches(a, b ssa.Instruction) bool {
 	seen := map[*ssa.BasicBlock]bool{}
 	var dfs func(x *ssa.BasicBlock) bool
 	dfs = func(x *ssa.BasicBlock) bool {
-		for _, s := range x.Succs {
+		for si, s := range x.Succs {
+			if fa.edgeDead(x, si) {
+				continue
+			}
 			if s == b.Block() {
 				return true
 			}
@@ -713,4 +742,53 @@ func (c RetCase) HasCaseGuard(pred func(Guard) bool) bool {
 		}
 	}
 	return false
+}
+
+
+// constBool: the value of a condition term that is a compile-time constant as far as the analysis can see: true/false
+// literals, a boolean field of a zero-valued local struct (an options parameter that every caller leaves at its zero
+// value and that was turned into a local), and negations of these.
+func constBool(t *Term) (val, known bool) {
+	switch {
+	case t.Op == "const" && (t.Name == "true" || t.Name == "false"):
+		return t.Name == "true", true
+	case t.Op == "unop" && t.Name == "!" && len(t.Args) == 1:
+		v, k := constBool(t.Args[0])
+		return !v, k
+	case t.Op == "field" && len(t.Args) == 1:
+		r := t.Args[0]
+		for r.Op == "field" && len(r.Args) == 1 {
+			r = r.Args[0]
+		}
+		if r.Op == "zero" {
+			if t.Val != nil {
+				if b, ok := t.Val.Type().Underlying().(*types.Basic); ok && b.Kind() == types.Bool {
+					return false, true
+				}
+				return false, false
+			}
+			return false, true
+		}
+	}
+	return false, false
+}
+
+// edgeDead: the i-th successor edge of b cannot be taken because b branches on a constant condition.
+func (fa *FuncAnalysis) edgeDead(b *ssa.BasicBlock, i int) bool {
+	if len(b.Succs) != 2 || len(b.Instrs) == 0 {
+		return false
+	}
+	iff, ok := b.Instrs[len(b.Instrs)-1].(*ssa.If)
+	if !ok {
+		return false
+	}
+	if _, isBool := iff.Cond.Type().Underlying().(*types.Basic); !isBool {
+		return false
+	}
+	v, known := constBool(fa.Term(iff.Cond))
+	if !known {
+		return false
+	}
+	// Succs[0] is taken when the condition is true
+	return (i == 0) != v
 }
